@@ -354,11 +354,6 @@ class Session:
         rerr, werr = os.pipe()
         argv = ["fzf"] + (["--listen"] if listen else []) + list(args)
         self.job_control = job_control
-        if job_control:
-            # fzf as a foreground job of a job-control shell (its own process group, parent in the same session): only then
-            # does CTRL-Z (SIGTSTP to the group) stop it; the shell puts it back in the foreground as soon as it has stopped
-            script = ('set -m; "$0" "$@"; code=$?; while [ $code -gt 128 ] && jobs %1 >/dev/null 2>&1; do fg %1 >/dev/null 2>&1; code=$?; done; exit $code')
-            argv = ["bash", "-c", script, binary or FZF] + argv[1:]
         e = base_env(self.tmpdir, env)
         e["HOME"] = self.tmp
         self.hooks = None
@@ -377,7 +372,9 @@ class Session:
                     if fd > 2:
                         os.close(fd)
                 os.chdir(cwd or self.tmp)
-                os.execve("/bin/bash" if job_control else (binary or FZF), argv, e)
+                if job_control:
+                    _job_control_parent(os.path.join(self.tmp, "joblog"))
+                os.execve(binary or FZF, argv, e)
             finally:
                 os._exit(127)
         for fd in (rin, wout, werr):
@@ -582,9 +579,31 @@ class Session:
             return False
         return True
 
+    def job_stops(self):
+        """how many times the job was seen stopped by the job-control parent"""
+        try:
+            return len(open(os.path.join(self.tmp, "joblog")).read().splitlines())
+        except OSError:
+            return 0
+
+    def job_pid(self):
+        """the pid of fzf itself: under job control self.pid is the minimal shell and fzf is its only child"""
+        if not self.job_control:
+            return self.pid
+        for p in descendants(self.pid):
+            try:
+                st = open("/proc/%d/stat" % p).read()
+                if int(st[st.rfind(")") + 2:].split()[1]) == self.pid:
+                    return p
+            except (OSError, ValueError):
+                pass
+        return None
+
     def signal(self, sig):
         try:
-            os.kill(self.pid, sig)
+            p = self.job_pid()
+            if p:
+                os.kill(p, sig)
         except ProcessLookupError:
             pass
 
@@ -644,6 +663,51 @@ class Session:
         if self.hooks is not None:
             self.hooks.close()
         shutil.rmtree(self.tmp, ignore_errors=True)
+
+
+def _job_control_parent(logpath):
+    """Runs in the pty child (a session leader whose controlling terminal is the slave): the minimum of a job-control shell.
+    fzf becomes a foreground job in its own process group with its parent in the same session - only then does CTRL-Z
+    (fzf sends SIGTSTP to its own group) stop it: a process group whose only parent link leaves the session is orphaned and
+    the kernel discards the signal.  When the job stops, the 'shell' takes the terminal, gives it back and continues the job
+    (what `fg` does).  Returns in the grandchild (which then execs fzf); never returns in the shell."""
+    for sg in (signal.SIGTTOU, signal.SIGTTIN, signal.SIGTSTP):
+        signal.signal(sg, signal.SIG_IGN)
+    tty = os.open("/dev/tty", os.O_RDWR)
+    gc = os.fork()
+    if gc == 0:
+        os.setpgid(0, 0)
+        os.tcsetpgrp(tty, os.getpid())
+        os.close(tty)
+        for sg in (signal.SIGTTOU, signal.SIGTTIN, signal.SIGTSTP):
+            signal.signal(sg, signal.SIG_DFL)
+        return
+    try:
+        try:
+            os.setpgid(gc, gc)
+        except OSError:
+            pass
+        try:
+            os.tcsetpgrp(tty, gc)
+        except OSError:
+            pass
+        for fd in (0, 1, 2):
+            os.close(fd)
+        while True:
+            _, st = os.waitpid(gc, os.WUNTRACED)
+            if os.WIFSTOPPED(st):
+                with open(logpath, "a") as f:
+                    f.write("stopped %d\n" % os.WSTOPSIG(st))
+                os.tcsetpgrp(tty, os.getpgrp())
+                time.sleep(0.1)
+                os.tcsetpgrp(tty, gc)
+                os.kill(-gc, signal.SIGCONT)
+                continue
+            if os.WIFEXITED(st):
+                os._exit(os.WEXITSTATUS(st))
+            os._exit(128 + os.WTERMSIG(st))
+    finally:
+        os._exit(126)
 
 
 def descendants(root_pid):
